@@ -334,7 +334,7 @@ End CacheSide.
 
 (* --- dense side *)
 Lemma csd_uniform (x y : list Q) n fs sbf K : length x = n -> length y = n -> (K < mlab_numfreqs nfft)%nat ->
-  mlab_csd_from (mlab_spectrum dft wv x nfft o) (mlab_spectrum dft wv y nfft o) wv nfft fs sbf K
+  mlab_csd_from (mlab_spectrum dft wv x nfft o) (mlab_spectrum dft wv y nfft o) (mlab_scale wv fs sbf) nfft K
   =c= cscale ((if mlab_doubled nfft K then 2 else 1) / mlab_scale wv fs sbf) (U y x (nwin n) K).
 Proof.
   intros Hx Hy HK. unfold mlab_csd_from. rewrite mlab_length, Hx.
@@ -548,7 +548,7 @@ Lemma dense_fxy_uniform a b K : (a <= b)%nat -> (b < length ts)%nat -> (K < mlab
   dense_fxy dft ts wv nfft ovl fs a b K =c=
   cscale (rdense K) (U dft wv nfft oeff (nth a ts []) (nth b ts []) (nwin nfft oeff n) K).
 Proof.
-  intros Hab Hb HK. unfold dense_fxy. fold oeff.
+  intros Hab Hb HK. unfold dense_fxy, dense_fxy_tbl, dense_tbl.
   change (match ovl with Some o => o | None => dense_default_overlap nfft end) with oeff.
   apply Nat.leb_le in Hab. rewrite Hab. apply Nat.leb_le in Hab.
   rewrite !(nth_map_lt _ _ _ _ []) by lia.
@@ -568,7 +568,7 @@ Proof.
   destruct idx_ok as [Hi Hj].
   assert (Hs : 0 < / norm_val wv fs sbf) by (apply Qinv_lt_0_compat, nv_pos).
   pose proof (rdense_pos (lbi + k)) as Hr.
-  unfold dense_coh. destruct (i <=? j)%nat eqn:Eij.
+  unfold dense_coh, dense_coh_of. destruct (i <=? j)%nat eqn:Eij.
   - apply Nat.leb_le in Eij.
     apply (scaled_build _ _ _ _ _ _ _ _ _ _ _ Hs Hr Hxy Hxx Hyy).
     + apply dense_fxy_uniform; auto.
@@ -790,7 +790,7 @@ Proof.
   assert (HK : (lbi + k < mlab_numfreqs nfft)%nat) by lia.
   assert (Hsp : 0 < / norm_val wv fs sbf) by (apply Qinv_lt_0_compat; apply norm_val_pos; assumption).
   pose proof (rdense_pos wv nfft fs Hfs Hw (lbi + k)) as Hr.
-  unfold dense_coh. replace (s <=? length seeds + t)%nat with true by (symmetry; apply Nat.leb_le; lia).
+  unfold dense_coh, dense_coh_of. replace (s <=? length seeds + t)%nat with true by (symmetry; apply Nat.leb_le; lia).
   assert (Es : nth s (seeds ++ targets) [] = sd) by (apply app_nth1; auto).
   assert (Et : nth (length seeds + t) (seeds ++ targets) [] = nth t targets [])
     by (rewrite app_nth2 by lia; f_equal; lia).
